@@ -37,7 +37,7 @@ RULE = (
     "subscription intervals, >=1 reset and >=1 rejected dispatch between "
     "accepted ones."
 )
-BUDGET = {"quick": 600, "thorough": 3000}
+BUDGET = {"quick": 600, "thorough": 8000}
 ASSUMPTIONS = [
     "create_or_get_observer for a singleton type whose existing instance fails the condition must raise (follows from 'a singleton type cannot be subscribed twice')",
 ]
